@@ -49,17 +49,17 @@ type Topo struct {
 
 // TopoOpts steers the generator.
 type TopoOpts struct {
-	MaxCPUs       int
-	MinCPUs       int
-	NoOffline     bool
-	NoIsolated    bool
-	NoSpecial     bool // no CPU-less nodes
-	NoMemoryless  bool
-	NoHybrid      bool
-	AlwaysL2      bool
-	MaxPkgs       int
-	SmallMem      bool // node sizes of a few hundred MiB .. few GiB so that workloads overflow
-	MaxMemNodes   int  // bound on the number of nodes with memory (0 = no bound)
+	MaxCPUs      int
+	MinCPUs      int
+	NoOffline    bool
+	NoIsolated   bool
+	NoSpecial    bool // no CPU-less nodes
+	NoMemoryless bool
+	NoHybrid     bool
+	AlwaysL2     bool
+	MaxPkgs      int
+	SmallMem     bool // node sizes of a few hundred MiB .. few GiB so that workloads overflow
+	MaxMemNodes  int  // bound on the number of nodes with memory (0 = no bound)
 }
 
 // GenTopo draws a hardware model.
